@@ -190,7 +190,7 @@ func discharge(ob *Obligation, dir string, idx int, timeoutS int, cross bool) {
 	}
 }
 
-var valRe = regexp.MustCompile(`\(\s*(\|[^|]*\||[^\s()]+)\s+(#x[0-9a-fA-F]+|#b[01]+|true|false)\s*\)`)
+var valRe = regexp.MustCompile(`\(\s*(\|[^|]*\||[^\s()]+)\s+(#x[0-9a-fA-F]+|#b[01]+|true|false|\(fp\s+#[xb][0-9a-fA-F]+\s+#[xb][0-9a-fA-F]+\s+#[xb][0-9a-fA-F]+\)|\(_\s+[+-]?[a-zA-Z]+\s+\d+\s+\d+\))\s*\)`)
 
 func parseModel(out string) map[string]string {
 	m := map[string]string{}
